@@ -214,6 +214,8 @@ class Methods:
                         r = getattr(cv, name)(*cargs)
                     except Exception:
                         r = None
+                    if isinstance(r, str) and r == cv:
+                        return s          # identity: keep the very same string value
                     if isinstance(r, (str, bool, int)):
                         return self.from_py(r, env)
                     if isinstance(r, (list, tuple)) and all(isinstance(x, str) for x in r):
